@@ -88,7 +88,16 @@ pub fn run<T: Send>(
     })
 }
 
-/// Convenience: no watchdog action other than printing.
+/// Seconds a partition of `run_simple` may take before the engine gives up (set from the tier).
+static SIMPLE_LIMIT_S: AtomicU64 = AtomicU64::new(1800);
+
+pub fn set_simple_limit(secs: u64) {
+    SIMPLE_LIMIT_S.store(secs, Ordering::Relaxed);
+}
+
+/// Convenience: partitions are short; one that does not finish within the limit means that a
+/// call into the library does not return (an endless loop is C05's subject).  The property of
+/// the calling check cannot be evaluated then: machinery exit, never a verdict.
 pub fn run_simple<T: Send>(
     n_parts: usize, threads: usize, seed: u64, init: impl Fn() -> T + Sync,
     work: impl Fn(&mut T, usize) + Sync,
@@ -102,9 +111,13 @@ pub fn run_simple<T: Send>(
             work(st, p);
             slot.done.fetch_add(1, Ordering::Relaxed);
         },
-        600,
-        |p, d| {
-            eprintln!("MACHINERY-WARNING partition {p} made no progress for 600 s (done={d})");
+        SIMPLE_LIMIT_S.load(Ordering::Relaxed),
+        |p, _d| {
+            println!(
+                "MACHINERY-ERROR partition {p} did not finish within {} s: a call into the library does not return (C05's subject); this check cannot be evaluated on this tree",
+                SIMPLE_LIMIT_S.load(Ordering::Relaxed)
+            );
+            std::process::exit(2);
         },
     )
 }
